@@ -1,6 +1,9 @@
 """Directory part of C10: build a temporary SpectDataSet directory from an abstract case, run the
-chunk-torch-spect-data-dir command in-process, re-read and project its output, compare with the chunks the
-specification (Slicer.tla, ChunkDir) prescribes.  Lives in its own module so that worker processes can import it."""
+chunk-torch-spect-data-dir command in-process, re-read and project its output, compare with the directory the
+specification (Slicer.tla) prescribes: one file per NAME (Slicer.tla NameOf / FileGroups for the abstract form of
+--format-utt), holding any one of the chunks that format to that name (TLC has checked that a name carrying the
+window determines the chunk, FilesOK).  The command is run with and without --quiet.  Lives in its own module so
+that worker processes can import it."""
 import os
 import shutil
 import traceback
@@ -12,6 +15,21 @@ from . import _ps
 
 LABEL = {1: 4, 2: 9, 3: 0}  # spec label -> alignment id
 PAD_CONST = -3  # --pad-constant
+
+
+# abstract format (Slicer.tla Fmts) -> concrete --format-utt strings (None = the command's default)
+FORMATS = {
+    "se": [None, "{utt_id}@{start}@{end}"],
+    "ise": ["{utt_id}@{idx}@{start}@{end}"],
+    "i": ["{utt_id}.{idx}"],
+    "s": ["{utt_id}_{start}"],
+}
+DEFAULT_FORMAT = "{utt_id}.{start:05d}.{end:05d}"
+
+
+def token_kind(got_ids, exp_ids):
+    """the kept token ids differ: only their order ('token_order') or the tokens themselves ('tokens')"""
+    return "token_order" if sorted(got_ids) == sorted(exp_ids) else "tokens"
 
 
 def _classify_tokens(got, exp, a, retain):
@@ -56,6 +74,8 @@ def eval_dir_case(case, workdir):
 
     o = case["opt"]
     prefix, suffix, fmt = case["prefix"], case["suffix"], case["fmt"]
+    if fmt not in FORMATS[case["fmt_kind"]]:
+        raise RuntimeError("format %r is not a realisation of the abstract format %r" % (fmt, case["fmt_kind"]))
     root = os.path.join(workdir, "d%d" % case["salt"])
     shutil.rmtree(root, ignore_errors=True)
     in_dir, out_dir = os.path.join(root, "in"), os.path.join(root, "out")
@@ -77,7 +97,9 @@ def eval_dir_case(case, workdir):
             torch.save(torch.tensor(u["ref"], dtype=torch.long).view(-1, 3),
                        os.path.join(in_dir, "ref", prefix + name + suffix))
     args = [in_dir, out_dir, "--num-workers", "0", "--policy", o["policy"], "--lobe-size", str(o["lobe"]),
-            "--window-type", o["wt"], "--quiet"]
+            "--window-type", o["wt"]]
+    if case["quiet"]:
+        args.append("--quiet")
     if o["padmode"] != "none":
         args += ["--pad-mode", o["padmode"], "--pad-constant", str(PAD_CONST)]
     if o["partial"]:
@@ -90,7 +112,7 @@ def eval_dir_case(case, workdir):
         args += ["--file-suffix", suffix]
     if fmt:
         args += ["--format-utt", fmt]
-    fmt_ = fmt or "{utt_id}.{start:05d}.{end:05d}"
+    fmt_ = fmt or DEFAULT_FORMAT
     info = dict(validate_disagrees=0)
     try:
         with warnings.catch_warnings():
@@ -102,10 +124,23 @@ def eval_dir_case(case, workdir):
     if rc:
         shutil.rmtree(root, ignore_errors=True)
         return [("exit_code", "command returned %r" % (rc,))], info
-    # expected directory (later chunks with the same name replace earlier ones, as files do)
+    # expected directory, from the spec's file groups: name -> the chunks the documentation allows in that file
     exp = {}
-    for ch in case["chunks"]:
-        exp[fmt_.format(utt_id=names[ch["utt"]], idx=ch["idx"], start=ch["s"], end=ch["e"])] = ch
+    for g in case["files"]:
+        cands = [case["chunks"][j - 1] for j in g["any"]]
+        concrete = {fmt_.format(utt_id=names[ch["utt"]], idx=ch["idx"], start=ch["s"], end=ch["e"]) for ch in cands}
+        if len(concrete) != 1 or next(iter(concrete)) in exp:
+            raise RuntimeError("format %r does not realise the abstract format %r: group %s gives names %s" % (
+                fmt_, case["fmt_kind"], g["name"], sorted(concrete)))
+        uniq = []
+        for ch in cands:
+            if not any(all(ch[k] == x[k] for k in ("feat", "ali", "ref")) for x in uniq):
+                uniq.append(ch)
+        if g["same"] != (len(uniq) == 1):
+            raise RuntimeError("exported file group %s: 'same' flag disagrees with the exported chunks" % (g["name"],))
+        exp[next(iter(concrete))] = uniq
+    if sum(len(g["any"]) for g in case["files"]) != len(case["chunks"]):
+        raise RuntimeError("exported file groups do not partition the chunks")
     fails = []
     suffix_pad = "_replicate_pad_gt_T" if o["padmode"] == "replicate" and _dir_pad_gt_T(case) else ""
 
@@ -133,38 +168,65 @@ def eval_dir_case(case, workdir):
         if not has and lst:
             fails.append(("chunks", "%s/ written although the source has none" % sub))
     inv_label = {v: k for k, v in LABEL.items()}
+
+    def against(name, ch, f, a, rr):
+        """the file `name` (projected feat / ali / ref) against one chunk the spec allows there"""
+        out = []
+        got_feat = _ps.project_row(feats[ch["utt"]], f, float(PAD_CONST))
+        if got_feat != ch["feat"]:
+            kind = "feat" + suffix_pad
+            other = [x for x in case["chunks"] if x["utt"] == ch["utt"] and x["feat"] == got_feat and x["feat"]
+                     and (x["s"], x["e"]) != (ch["s"], ch["e"])]
+            if other and not suffix_pad:
+                kind = "file_holds_other_window"  # the frames of another window of the same utterance
+            out.append((kind, "%s: frames %s, expected %s (0 = pad constant)%s" % (
+                name, got_feat, ch["feat"],
+                "; these are the frames of window [%d, %d)" % (other[0]["s"], other[0]["e"]) if other else "")))
+        if a is not None:
+            got_ali = [0 if v == PAD_CONST else inv_label.get(v, -1) for v in a.tolist()]
+            if got_ali != ch["ali"]:
+                out.append(("ali" + suffix_pad, "%s: alignment %s, expected %s" % (name, got_ali, ch["ali"])))
+        if rr is not None:
+            got_ref = rr.tolist()
+            if [t[0] for t in got_ref] != [t[0] for t in ch["ref"]]:
+                out.append((token_kind([t[0] for t in got_ref], [t[0] for t in ch["ref"]]),
+                            "%s: tokens %s, expected %s" % (name, got_ref, ch["ref"])))
+            else:
+                kind = _classify_tokens(got_ref, ch["ref"], ch["s"], o["retain"])
+                if kind:
+                    out.append((kind, "%s: tokens %s, expected %s" % (name, got_ref, ch["ref"])))
+        return out
+
     for name in got_names:
-        ch = exp.get(name)
-        if ch is None:
+        cands = exp.get(name)
+        if cands is None:
             continue
-        u = case["src"][case["utts"].index(ch["utt"])]
         f = torch.load(os.path.join(out_dir, "feat", prefix + name + suffix))
         if f.dim() != 2 or f.size(1) != 2 or f.dtype != torch.float32:
             fails.append(("shape", "%s: feat %s %s" % (name, tuple(f.shape), f.dtype)))
             continue
-        got_feat = _ps.project_row(feats[ch["utt"]], f, float(PAD_CONST))
-        if got_feat != ch["feat"]:
-            fails.append(("feat" + suffix_pad, "%s: frames %s, expected %s (0 = pad constant)" % (name, got_feat, ch["feat"])))
+        a = rr = None
         if case["hasAli"] and os.path.exists(os.path.join(out_dir, "ali", prefix + name + suffix)):
             a = torch.load(os.path.join(out_dir, "ali", prefix + name + suffix))
             if a.dim() != 1 or a.dtype != torch.long:
                 fails.append(("shape", "%s: ali %s %s" % (name, tuple(a.shape), a.dtype)))
-            else:
-                got_ali = [0 if v == PAD_CONST else inv_label.get(v, -1) for v in a.tolist()]
-                if got_ali != ch["ali"]:
-                    fails.append(("ali" + suffix_pad, "%s: alignment %s, expected %s" % (name, got_ali, ch["ali"])))
+                continue
         if case["hasRef"] and os.path.exists(os.path.join(out_dir, "ref", prefix + name + suffix)):
             rr = torch.load(os.path.join(out_dir, "ref", prefix + name + suffix))
             if rr.dim() != 2 or rr.size(1) != 3 or rr.dtype != torch.long:
                 fails.append(("shape", "%s: ref %s %s" % (name, tuple(rr.shape), rr.dtype)))
-            else:
-                got_ref = rr.tolist()
-                if [t[0] for t in got_ref] != [t[0] for t in ch["ref"]]:
-                    fails.append(("tokens", "%s: tokens %s, expected %s" % (name, got_ref, ch["ref"])))
-                else:
-                    kind = _classify_tokens(got_ref, ch["ref"], ch["s"], o["retain"])
-                    if kind:
-                        fails.append((kind, "%s: tokens %s, expected %s" % (name, got_ref, ch["ref"])))
+                continue
+        # accepted iff the file agrees with one of the allowed chunks; otherwise report the nearest one
+        # (fewest failed parts; a candidate failing only by the recorded boundary sign first)
+        best = None
+        for ch in cands:
+            out = against(name, ch, f, a, rr)
+            rank = (len([k for k, _ in out if k != "boundary_plus_slice_start"]), len(out))
+            if best is None or rank < best[0]:
+                best = (rank, out)
+            if not out:
+                break
+        fails.extend(best[1])
     if not fails and got_names and not o["partial"] and not o["retain"]:
         # informational cross-check with the library's own validator (the verdict above is the spec's)
         try:
